@@ -1,5 +1,4 @@
-(* C06 - property theorems about the GENERATED model of the code, part A (Euler iterator, solver
-   wrappers).  Re-checked on every run against build/C06/Iterators_gen.v.
+(* C06 - property theorems about the GENERATED model of the code, part A (Euler iterator).  Re-checked on every run against build/C06/Iterators_gen.v.
    Only theorems, each closed by [exact] of a lemma of BridgeA.v and followed by Print Assumptions. *)
 From Coq Require Import Reals QArith List Bool.
 From Coquelicot Require Import Coquelicot.
@@ -62,21 +61,3 @@ Theorem C06_euler_affine_system (VS : vspace) (L : VS -> VS) (g0 g1 : VS) getdt 
 Proof. exact (euler_gen_affine_system VS L g0 g1 getdt t y). Qed.
 Print Assumptions C06_euler_affine_system.
 
-(* DESolver._getdXdt hands the model the time and state it was given, and _updateX is x + h k when
-   the model does not correct derivatives *)
-Theorem C06_solver_passes_time (VS : vspace) (F : R -> VS -> VS) userdt dtmin dtmax t x :
-  getdXdt_gen Rops VS (@vadd VS) (@smul VS) F userdt dtmin dtmax t x = F t x.
-Proof. exact (getdXdt_passes_time VS F userdt dtmin dtmax t x). Qed.
-Print Assumptions C06_solver_passes_time.
-
-Theorem C06_solver_update_is_plain (VS : vspace) (F : R -> VS -> VS) userdt dtmin dtmax x k h :
-  updateX_gen Rops VS (@vadd VS) (@smul VS) F userdt dtmin dtmax x k h = plain_update x k h.
-Proof. exact (updateX_is_plain VS F userdt dtmin dtmax x k h). Qed.
-Print Assumptions C06_solver_update_is_plain.
-
-Theorem C06_solver_euler_is_rk (VS : vspace) (F : R -> VS -> VS) userdt dtmin dtmax t x :
-  let dt := clamp_dt dtmin dtmax (userdt (F t x)) in
-  solver_Euler_gen Rops VS (@vadd VS) (@smul VS) F userdt dtmin dtmax t x =
-  (rk_step VS F euler1 t x dt, dt).
-Proof. exact (solver_euler_is_rk VS F userdt dtmin dtmax t x). Qed.
-Print Assumptions C06_solver_euler_is_rk.
